@@ -526,3 +526,16 @@ def check_state_encapsulated(model, rep, rule, rel, cls, field):
             '| unites them)', {'writes': bad},
             witness='a global / nonlocal declaration inside a loop body: the '
             'definitions carried by the back edge are replaced, not united')
+
+
+def check_no_early_exit(rep, rule, fi, ev):
+  """A loop over neighbours / reaching definitions that the transfer function
+  (or a helper it calls) can leave by `return` looks at a prefix only -- of a
+  set, i.e. at an arbitrary subset."""
+  early = [f for f in ev.facts if f[0] == 'early-return']
+  rep.check(not early, rule, '%s:loops-run-to-the-end' % fi.site,
+            'a loop over graph neighbours or reaching function definitions is left '
+            'by a return: what the remaining elements contribute is lost',
+            {'loops': [f[1] for f in early]}, line=fi.node.lineno,
+            witness='a lambda ahead of a local def in the (unordered) set of '
+            'reaching function definitions')
